@@ -1,7 +1,10 @@
 //! netwire: wire-level monitors for turmoil-net (C06, C16).
 
 mod checks;
+mod dfs;
+mod e2e;
 mod exec;
+mod gen;
 mod oracle;
 mod prog;
 mod scn;
